@@ -57,6 +57,41 @@ fn real(data: &[u8]) -> Result<Vec<Ev>, String> {
     .map_err(|e| e.downcast_ref::<String>().cloned().or_else(|| e.downcast_ref::<&str>().map(|s| s.to_string())).unwrap_or_else(|| "panic".into()))
 }
 
+/// A clone of the parser taken at any point of the stream continues exactly like the original, in every configuration
+/// (every position for short inputs, 12 spread positions for long ones).
+fn clone_points(data: &[u8], whole: &[Ev]) -> Option<(String, String)> {
+    let n = data.len();
+    let step = (n / 12).max(1);
+    let r = std::panic::catch_unwind(|| {
+        let mut p = anstyle_parse::Parser::<anstyle_parse::DefaultCharAccumulator>::new();
+        let mut rec = Recorder::default();
+        let mut clones = vec![];
+        for (k, &b) in data.iter().enumerate() {
+            if k > 0 && (n <= 48 || k % step == step / 2) {
+                clones.push((k, rec.ev.len(), p.clone()));
+            }
+            p.advance(&mut rec, b);
+        }
+        for (k, mark, mut c) in clones {
+            let mut rc = Recorder::default();
+            for &b in &data[k..] {
+                c.advance(&mut rc, b);
+            }
+            if rc.ev[..] != rec.ev[mark..] {
+                let i = rc.ev.iter().zip(&rec.ev[mark..]).position(|(x, y)| x != y).unwrap_or(rc.ev.len().min(rec.ev.len() - mark));
+                return Some(format!("a clone of the parser taken before byte {k} continues differently: event {i}: clone reports {:?}, the original {:?}", rc.ev.get(i), rec.ev.get(mark + i)));
+            }
+        }
+        None
+    });
+    let _ = whole;
+    match r {
+        Ok(None) => None,
+        Ok(Some(m)) => Some(("c20:clone".into(), m)),
+        Err(_) => Some(("c20:panic".into(), "a clone of the parser panicked while continuing the stream".into())),
+    }
+}
+
 fn reference(data: &[u8]) -> Vec<Ev> {
     let mut r = RefVt::new(Policy::Consume);
     if CORE {
@@ -105,6 +140,9 @@ fn evaluate(data: &[u8]) -> (Vec<Ev>, bool, Option<(String, String)>) {
         Ok(g) => g,
         Err(p) => return (vec![], false, Some(("c20:panic".into(), format!("the parser panicked: {p}")))),
     };
+    if let Some(bad) = clone_points(data, &got) {
+        return (got, false, Some(bad));
+    }
     let want = reference(data);
     let (fill, sep_at_full) = osc_fill(data);
     let fits = fill <= OSC_CAP;
